@@ -252,6 +252,13 @@ def gen_case(rnd, kind):
             rel = g.choice([("BV_ULT", (), (a_, b_)), ("NOT", (), (("EQUALS", (), (a_, b_)),)),
                             ("EQUALS", (), (("BV_ADD", (), (a_, ("CONST", (BV(2), 1), ()))), b_))])
             conj.append((g.choice(["FORALL", "EXISTS"]), (a_[1],), (rel,)))
+        if g.pct(30):
+            # a constant that is in an equality class with symbols and also occurs where only a constant may stand
+            # (the exponent of a power): the constant is what gets propagated, never replaced by a symbol
+            c_ = ("CONST", (REAL, g.choice([2, 3])), ())
+            s1, s2 = g.symbol(REAL), g.symbol(REAL)
+            conj += [app("EQUALS", s1, c_) if g.pct(50) else app("EQUALS", c_, s1), app("EQUALS", s2, s1),
+                     app("LT", ("CONST", (REAL, 3), ()), ("POW", (), (g.symbol(REAL), c_)))]
         g.rnd.shuffle(conj)
         t = app("AND", *conj) if len(conj) > 1 else conj[0]
     return t, g, g.cards()
